@@ -118,6 +118,15 @@ Theorem C14_restart_then_traffic_initiates : forall s t t' t'' j j' j'' ids,
 Proof. exact restart_then_traffic_initiates. Qed.
 Print Assumptions C14_restart_then_traffic_initiates.
 
+(* Configuration path: a peer created together with its persistent-keepalive
+   interval by one UAPI set operation on a device that is already up initiates
+   at once (the keepalive that is due needs a session). *)
+Theorem C14_configured_with_persistent_keepalive_initiates : forall p t j,
+  0 < p -> RekeyTimeout + sec <= t ->
+  snd (step (init_st p) (mkev t IConfigure j)) = [OInit].
+Proof. exact configured_with_persistent_keepalive_initiates. Qed.
+Print Assumptions C14_configured_with_persistent_keepalive_initiates.
+
 (* Data received at t on an established session and nothing sent since:
    exactly one keepalive, at t + 10 s. *)
 Theorem C14_keepalive_after_10s_receive_only : forall s k t id j js T fuel,
